@@ -543,6 +543,16 @@ func (e *Env) handedErrorSource(x *ssa.Call) bool {
 	if !isParam || x.Call.IsInvoke() {
 		return false
 	}
+	return e.handedParamIsModuleFunc(pv, 0)
+}
+
+// handedParamIsModuleFunc: every call site of the (unexported) function pv belongs to passes a function or method
+// value of the metric packages in pv's position - directly, or by handing on a parameter of its own for which
+// the same holds.
+func (e *Env) handedParamIsModuleFunc(pv *ssa.Parameter, depth int) bool {
+	if depth > 4 {
+		return false
+	}
 	fn := pv.Parent()
 	if fn == nil || fn.Object() == nil || (fn.Object().Exported() && !(fn.Pkg != nil && load.IsInternal(fn.Pkg.Pkg.Path()))) {
 		return false
@@ -571,6 +581,11 @@ func (e *Env) handedErrorSource(x *ssa.Call) bool {
 				sites++
 				var target *ssa.Function
 				switch a := call.Call.Args[idx].(type) {
+				case *ssa.Parameter:
+					if !e.handedParamIsModuleFunc(a, depth+1) {
+						return false
+					}
+					continue
 				case *ssa.Function:
 					target = a
 				case *ssa.MakeClosure:
@@ -1030,6 +1045,12 @@ func (e *Env) boundsRules() {
 				if !okLoop && !isSlice && guardedIndex(ir.DomConds(bld, b), bld, index, x, xt) {
 					c.Ok("bounds", cons, pos, "index between 0 and the length by the dominating comparisons (lo <= i, i < len)")
 					continue
+				}
+				if !okLoop && !isSlice {
+					if why := e.predicateGuardedIndex(ir.DomConds(bld, b), bld, index, x); why != "" {
+						c.Ok("bounds", cons, pos, why)
+						continue
+					}
 				}
 				if okLoop {
 					c.Ok("bounds", cons, pos, "range-loop index (0 <= i < len)")
@@ -1558,6 +1579,65 @@ func guardedIndex(conds []*ir.Term, bld *ir.Builder, index, x ssa.Value, xt *ir.
 		}
 	}
 	return lower && upper
+}
+
+// predicateGuardedIndex: the access to an array is dominated by a predicate of the library applied to the index
+// (if v.IsValid() { return table[v] }) whose summary, evaluated over the whole domain of the index's type - the
+// declared constants, the numbers just outside them and "any other number" -, is true only for values inside
+// the array. Returns the reason, or "".
+func (e *Env) predicateGuardedIndex(conds []*ir.Term, bld *ir.Builder, index, x ssa.Value) string {
+	var at types.Type = x.Type()
+	if p, ok := at.Underlying().(*types.Pointer); ok {
+		at = p.Elem()
+	}
+	arr, ok := at.Underlying().(*types.Array)
+	if !ok {
+		return ""
+	}
+	T := index.Type()
+	if ct, ok := index.(*ssa.ChangeType); ok {
+		T = ct.X.Type()
+	}
+	if cv, ok := index.(*ssa.Convert); ok {
+		T = cv.X.Type()
+	}
+	if e.F.EnumOf(T) == nil {
+		return ""
+	}
+	it := bld.Term(index)
+	for _, g := range conds {
+		if g.Op != ir.OCall || len(g.Args) != 1 || g.Args[0].Key() != it.Key() {
+			continue
+		}
+		fn, _ := g.Obj.(*types.Func)
+		if fn == nil || fn.Pkg() == nil || !load.IsLib(fn.Pkg().Path()) {
+			continue
+		}
+		okAll := true
+		for _, v := range e.F.Domain(T) {
+			r := e.F.Eval(fn, v)
+			if r.Kind != facts.VConst || r.C == nil || r.C.Kind() != constant.Bool {
+				okAll = false
+				break
+			}
+			if !constant.BoolVal(r.C) {
+				continue
+			}
+			if (v.Kind != facts.VConst && v.Kind != facts.VOther) || v.C == nil || v.C.Kind() != constant.Int {
+				okAll = false // true for "any other number"
+				break
+			}
+			n, exact := constant.Int64Val(v.C)
+			if !exact || n < 0 || n >= arr.Len() {
+				okAll = false
+				break
+			}
+		}
+		if okAll {
+			return fmt.Sprintf("index guarded by %s, which holds only for values inside the array (evaluated over the domain of %s)", fname(fn), types.TypeString(T, nil))
+		}
+	}
+	return ""
 }
 
 // nonNegative: the integer value cannot be negative: unsigned type, a length, a constant, or a loop counter
